@@ -113,3 +113,108 @@ def sect_script(entries, seed, variant):
         lines += ["C", "N"]
     lines.append("X")
     return "\n".join(lines) + "\n", idmap
+
+
+# --------------------------------------------------------------------------- collections inside an operation
+
+SECT2_QUANTA = 31      # quanta of a fresh two-page mixed section (StoreSect: Cap(2))
+
+
+def gc_points(tlc_output):
+    """The situations printed by StoreImpl's IPendGc (<<"GCPOINT", k, prev, next, far, frontier-in-section>>)."""
+    import re
+    out = set()
+    for m in re.finditer(r'<<"GCPOINT", "(\w+)", "([\w-]+)", "([\w-]+)", (TRUE|FALSE), (TRUE|FALSE)>>', tlc_output):
+        out.add((m.group(1), m.group(2), m.group(3), m.group(4) == "TRUE", m.group(5) == "TRUE"))
+    return sorted(out)
+
+
+def reent_script(point, seed, use_drain=True):
+    """One script that puts the real allocator into the situation `point` at the moment mxmemLink asks for its
+    first carrier page with no heap page free (script command D), in automatic collection mode:
+      k = "free":    [K][P] M [N][K] in a fresh two-page section, M freed explicitly;
+      k = "discard": [K] P and a frontier too small for the next request (the frontier is thrown away).
+    prev/next say what P / N are: live (rooted), garbage (unreferenced), none, frontier.  far: another rooted
+    block K in the section; fin: the frontier stays in the section.  All mixed sizes differ, so that the
+    collection links no piece of the size being linked.  Returns None if the situation cannot be laid out in
+    one section."""
+    import random
+    k, prev, nxt, far, fin = point
+    rng = random.Random(seed)
+    pool = [2, 3, 4, 5, 6, 7, 8]
+    rng.shuffle(pool)
+    qK, qP, qM, qN = pool[:4]
+    seq = []                      # (block id, quanta or None = "the rest of the section", rooted)
+    K, P, M, N, BIG = 1, 2, 3, 4, 5
+    if k == "free":
+        if nxt == "free" or prev in ("free", "half-done") or nxt == "half-done":
+            return None
+        k_first = far and prev != "none"
+        k_last = far and prev == "none"
+        if k_last and nxt in ("frontier", "none"):
+            return None
+        if k_first:
+            seq.append((K, qK, True))
+        if prev in ("live", "garbage"):
+            seq.append((P, qP, prev == "live"))
+        seq.append((M, qM, False))
+        if nxt in ("live", "garbage"):
+            seq.append((N, qN, nxt == "live"))
+        if k_last:
+            seq.append((K, qK, True))
+        if nxt == "frontier" and not fin:
+            return None
+        if not fin:                # the last block takes what is left of the section: no frontier stays behind
+            last = seq[-1]
+            seq[-1] = (last[0], None, last[2])
+    elif k == "discard":
+        if nxt != "none" or prev not in ("live", "garbage"):
+            return None
+        if far:
+            seq.append((K, qK, True))
+        seq.append((P, qP, prev == "live"))
+    else:
+        return None
+    lines, used, root = [], 0, 0
+    for bid, q, rooted in seq:
+        if q is None:
+            q = SECT2_QUANTA - used
+        used += q
+        lines.append("A %d %d %d %d" % (bid, PTR_CODE, request_for(q, seed + bid), 1 + (bid + seed) % 8))
+        if rooted:
+            lines.append("S %d %d %d" % (root, bid, 0 if (seed + root) % 2 else 1 << 30))
+            root += 1
+    if used > SECT2_QUANTA or (fin and SECT2_QUANTA - used < 6):
+        return None
+    if use_drain:
+        lines.append("D")
+    if k == "free":
+        lines.append("F %d" % M)
+    else:
+        lines.append("A %d %d %d %d" % (BIG, PTR_CODE, request_for(40, seed), 7))
+    lines += ["N", "A 6 %d 300 3" % PTR_CODE, "N", "C", "N", "A 7 %d 700 4" % PTR_CODE, "F 7", "X"]
+    return "\n".join(lines) + "\n"
+
+
+def known_reent_scripts():
+    """Histories in which a collection that starts inside stoFree / stoAlloc damages the free index on the
+    unmodified tree (known findings of C10; the candidate patch makes all of them pass)."""
+    req = lambda q: q * Q - MXHEAD
+    out = {}
+    out["free-alone-in-section"] = "A 1 3 7649 5\nD\nF 1\nN\nA 2 3 300 6\nX\n"
+    out["same-size-garbage-neighbour"] = "A 1 3 300 5\nA 2 3 300 6\nD\nF 1\nN\nX\n"
+    out["unmerged-neighbours-section-returned"] = ("A 1 3 600 5\nA 2 3 300 6\nD\nF 1\nN\nA 3 3 6624 7\nC\nN\n"
+                                                  "A 4 3 7000 8\nA 5 3 300 9\nX\n")
+    sizes = [q for q in range(3, 258) if q != 41]          # 254 sizes + 300 (twice) + the rest = 256 carriers
+    need = sum(sizes) + 2 * 300 + 2 * (len(sizes) + 2) + 400
+    lines = ["G %d %d %d 0" % (GIANT_ID, PTRFREE_CODE, req(need)), "F %d" % GIANT_ID]
+    bid, bigs = 1, []
+    for q in sizes + [300, 300]:
+        lines.append("A %d 3 %d %d" % (bid, req(q), 1 + bid % 8))
+        bigs.append(bid)
+        lines.append("A %d 3 %d %d" % (bid + 1, req(2), 1 + bid % 8))
+        bid += 2
+    lines += ["F %d" % b for b in bigs]
+    lines += ["N", "D", "A 3900 3 %d 5" % req(259), "N", "X"]
+    out["split-remainder-at-full-carrier-page"] = "\n".join(lines) + "\n"
+    return out
